@@ -590,9 +590,9 @@ RULE = (
 
 def build(tier):
     subs = [
-        Sub("roundtrip", run_roundtrip, strategy=_message, budget={"quick": 6000, "thorough": 150000}, max_wall={"quick": 50, "thorough": 1500}),
-        Sub("wellformed", run_wellformed, strategy=_wire_fields, budget={"quick": 6000, "thorough": 150000}, max_wall={"quick": 50, "thorough": 1500}),
-        Sub("arbitrary", run_arbitrary, strategy=_arbitrary, budget={"quick": 8000, "thorough": 200000}, max_wall={"quick": 50, "thorough": 1500}),
+        Sub("roundtrip", run_roundtrip, strategy=_message, budget={"quick": 6000, "thorough": 450000}, max_wall={"quick": 50, "thorough": 3600}),
+        Sub("wellformed", run_wellformed, strategy=_wire_fields, budget={"quick": 6000, "thorough": 450000}, max_wall={"quick": 50, "thorough": 3600}),
+        Sub("arbitrary", run_arbitrary, strategy=_arbitrary, budget={"quick": 8000, "thorough": 600000}, max_wall={"quick": 50, "thorough": 3600}),
         Sub("atheris", run_arbitrary, strategy=_arbitrary, external=_atheris, note="coverage-guided (libFuzzer via Atheris) over raw datagrams with the round-trip / exception-class / reference-agreement oracle inside the target; half of the workers start from an empty corpus, half from 4 valid datagrams; skipped with a note if atheris is not installed"),
         Sub("extfield", run_extfield, cases=cases_extfield, exhaustive=True, note="_write/_read_extended_field_value over 0..66104 and all 16 nibbles x 7 tails"),
         Sub("headers", run_headers, cases=cases_headers, exhaustive=True, note="all 65536 (first byte, code) pairs x %d fixed tails" % len(_TAILS)),
